@@ -1,6 +1,6 @@
 (* C07 driver.
    X <c>                      hex_to_int on one char value
-   P <ops> <V|-> <file hex>   ops = comma list of t<int> | s<int> | d<hex of the string bytes>; V = validate_lead first *)
+   P <ops> <V|-> <file hex>   ops = comma list of t<int> | s<int> | d<hex of the string bytes> | e (zck_clear_error); V = validate_lead first *)
 let h_stub (t : n) (m : n list) : n list =
   bytes_of_string (Stubs.hash (n_to_int t) (string_of_bytes m))
 let zchars_of_string s = List.map (fun c -> let v = Char.code c in z_of_bz (BZ.of_int (if v >= 128 then v - 256 else v)))
@@ -11,6 +11,7 @@ let parse_op o =
   | 't' -> SetType (z_of_string rest)
   | 's' -> SetSize (z_of_string rest)
   | 'd' -> SetDigest (zchars_of_string (string_of_hex rest))
+  | 'e' -> ClearErr
   | _ -> failwith "op"
 let () = iter_lines (fun line ->
   match split_ws line with
